@@ -136,6 +136,12 @@ func (a *AggchainProverFlow) CheckInitialStatus(ctx context.Context) error {
 		return fmt.Errorf("aggchainProverFlow - error waiting for syncer to catch up: %w", err)
 	}
 
+	if lastSentCertificate != nil && lastSentCertificate.FromBlock > startL2Block {
+		// certificates beyond the start L2 block have already been sent, so the blocks between it and
+		// the last sent certificate are covered by the previous certificates: there is no gap to verify
+		return nil
+	}
+
 	if err := a.baseFlow.VerifyBlockRangeGaps(
 		ctx, lastSentCertificate, startL2Block, startL2Block); err != nil {
 		return fmt.Errorf("aggchainProverFlow - error verifying block range gaps on startup. Err: %w", err)
